@@ -60,7 +60,7 @@ CLAIMED = {
     design='4 (C01/C02/C12)', technique='cbmc code contracts (dfcc) + nested loop contracts with a conservation invariant; bounded unwinding for byte-exactness'),
  'C13': dict(
     text='is_file_prefix is proved (unbounded) to match aliases / the document root only on whole path components. normalize_path is decided by a BOUNDED stand-in: for every request path of up to 8 bytes '
-         'its result equals a reference component-stack normalisation (leading /, no ., .., empty component, never above the root). A genuine defect found this way (the / before the component after a .. was lost) is fixed.',
+         'its result equals a reference component-stack normalisation (leading /, no ., .., empty component, never above the root). A genuine defect found this way (the / before the component after a .. was lost) is fixed. is_in_root: with symlink checking on, a path is accepted only if root/path was resolved and the RESOLVED name passes the whole-component prefix test against the root.',
     note=TRUST + 'The check for path normalisation is a BOUNDED stand-in (two-pointer in-place compaction, outside the reach of cbmc 6.11 loop contracts) and is not counted among the discharged obligations; only is_file_prefix is proved without bound. Not covered: alias loop and realpath/symlink logic of '
          'check_in_document_root, percent-decoding order, directory listings, file-system behaviour.',
     design='4 (C13)', technique='cbmc code contract for is_file_prefix; bounded unwinding vs reference normalisation for normalize_path'),
